@@ -216,12 +216,28 @@ func appendSnapshotFlavors(b []byte, s *slip.Scope) []byte {
 			fa = append(fa, f)
 		}
 	}
+	// By name except that the flavors a flavor inherits from are written
+	// before it, they have to exist when it is defined.
 	sort.Slice(fa, func(i, j int) bool {
-		return fa[j].Inherits(fa[i])
+		return fa[i].Name() < fa[j].Name()
 	})
-	for _, f := range fa {
+	written := map[*flavors.Flavor]bool{}
+	var write func(f *flavors.Flavor)
+	write = func(f *flavors.Flavor) {
+		if written[f] {
+			return
+		}
+		written[f] = true
+		for _, f2 := range fa {
+			if f.Inherits(f2) {
+				write(f2)
+			}
+		}
 		b = append(b, '\n')
 		b = pp.Append(b, s, f.LoadForm())
+	}
+	for _, f := range fa {
+		write(f)
 	}
 	return b
 }
